@@ -518,7 +518,18 @@ static void odd_moduli(bool thorough) {
 
 // heap safety of the export buffers with moduli above 8192 bits: run under valgrind by the check
 static void big_moduli(const std::string &what) {
-	if (what == "vg-verify") {
+	if (what == "vg-zero") {
+		// a value with zero square makes mpz_export write nothing: verify then reads the uninitialised buffer.
+		// control (nonzero square) first, then the marker, then the zero values
+		TMCG_PublicKey k; unsigned bits = 429;
+		gen_bits(k.m, bits); mpz_setbit(k.m, bits - 1); mpz_setbit(k.m, 0);
+		mpz_set_ui(k.y, 2); k.sig = "sig|ID8^abcdefgh|abcdefgh|";
+		bool c = k.verify("data", "sig|ID8^abcdefgh|5|");
+		fprintf(stderr, "VGMARK\n"); fflush(stderr);
+		bool z = k.verify("data", "sig|ID8^abcdefgh|0|");
+		bool zm = k.verify("data", "sig|ID8^abcdefgh|" + S(k.m) + "|");
+		printf("VGDONE zero %d %d %d\n", (int)c, (int)z, (int)zm);
+	} else if (what == "vg-verify") {
 		for (int i = 0; i < 3; i++) {
 			TMCG_PublicKey k; Z v;
 			unsigned bits = 8300 + 8 * i + 3;
